@@ -233,7 +233,8 @@ def circle_segment_from_three_points(x0, x1, x2):
         theta = 2*pi - theta
         normal = -normal
 
-    result = circle_segment(theta, radius, center, np.cross(v0,v1), v0)
+    # w2 is the normal of the oriented triple (x0,x1,x2), i.e. of the direction of travel
+    result = circle_segment(theta, radius, center, w2, v0)
 
     # spit out 2D curve if all input points were 2D, otherwise return 3D
     result.set_dimension(np.max([len(x0), len(x1), len(x2)]))
